@@ -25,6 +25,6 @@ func main() {
 	if !run.Quick() {
 		depth = 3
 	}
-	sweep.Explore(run, sweep.Options{Prop: "C07", Bias: "idle", NBase: run.N(120, 1500), Depth: depth, DeepPct: 12, Workers: 6})
+	sweep.Explore(run, sweep.Options{Prop: "C07", Bias: "idle", NBase: run.N(120, 1500), Depth: depth, DeepPct: 12, Workers: 6, CleanStops: 4})
 	run.Exit()
 }
